@@ -51,6 +51,8 @@ VIOLATION_KINDS = [
     ('constructed value may fail to meet its declared type invariant', 'type-invariant'),
     ('might not be allowed at this program point', 'assertion'),
 ]
+MIN_FALLBACK_REQUESTS = 500   # an undecided obligation is accepted as bounded-only when at least this many inputs of its families were replayed
+
 INCONCLUSIVE_PATTERNS = ['rlimit', 'Resource limit', 'timed out', 'not supported', 'unsupported', 'does not yet support',
                          'does not support', 'not yet supported', 'unimplemented', 'must have a decreases clause']
 
@@ -542,7 +544,8 @@ def _run(pid, P, tier, seed, scratch, t0):
                 if f.get('replayed'):
                     rel_fail.append(f)
                 else:
-                    inconclusive.append(dict(message='UNDECIDED %s: %s' % (f['id'], f['undecided']), rendered='', cfg=f['cfg']))
+                    inconclusive.append(dict(message='UNDECIDED %s: %s' % (f['id'], f['undecided']), rendered='', cfg=f['cfg'], undecided=True,
+                                             searched=((f.get('witness_search') or {}).get('requests') or 0), clause=f.get('clause'), fn=f.get('fn'), kind=f.get('kind')))
             else:
                 rel_fail.append(f)
     # clauses of this property that sit in a function that could not be verified this run
@@ -561,7 +564,8 @@ def _run(pid, P, tier, seed, scratch, t0):
             if pf.get('replayed'):
                 rel_fail.append(pf)
             else:
-                inconclusive.append(dict(message='UNDECIDED clause %s: `%s` %s' % (c['id'], q, undecided_fns[q]), rendered='', cfg=''))
+                inconclusive.append(dict(message='UNDECIDED clause %s: `%s` %s' % (c['id'], q, undecided_fns[q]), rendered='', cfg='', undecided=True,
+                                         searched=((pf.get('witness_search') or {}).get('requests') or 0), clause=c['id'], fn=q, kind='clause'))
     if pid == 'C15' and undecided_fns:
         pf = dict(id='%s|undecided|PURE' % '+'.join(sorted(undecided_fns)), fn=sorted(undecided_fns)[0], kind='undecided', clause='C15.undecided',
                   cfg=runs[0]['cfg'], message='%s could not be read by the verifier (%s): whether it consults hidden state is undecided — and a concrete sequence of '
@@ -576,7 +580,8 @@ def _run(pid, P, tier, seed, scratch, t0):
             rel_fail.append(pf)
         else:
             for q in undecided_fns:
-                inconclusive.append(dict(message='UNDECIDED purity of `%s`: %s' % (q, undecided_fns[q]), rendered='', cfg=''))
+                inconclusive.append(dict(message='UNDECIDED purity of `%s`: %s' % (q, undecided_fns[q]), rendered='', cfg='', undecided=True,
+                                         searched=((pf.get('witness_search') or {}).get('requests') or 0), clause=None, fn=q, kind='purity'))
     if pid in SAFETY_PROPS and undecided_fns:
         # panic freedom of a function the verifier could not read this run: a concrete input that panics still settles it
         pf = dict(id='%s|undecided|SAFETY' % '+'.join(sorted(undecided_fns)), fn=sorted(undecided_fns)[0], kind='undecided', clause='SAFETY.undecided',
@@ -591,7 +596,8 @@ def _run(pid, P, tier, seed, scratch, t0):
             rel_fail.append(pf)
         else:
             for q in undecided_fns:
-                inconclusive.append(dict(message='UNDECIDED safety of `%s`: %s' % (q, undecided_fns[q]), rendered='', cfg=''))
+                inconclusive.append(dict(message='UNDECIDED safety of `%s`: %s' % (q, undecided_fns[q]), rendered='', cfg='', undecided=True,
+                                         searched=((pf.get('witness_search') or {}).get('requests') or 0), clause=None, fn=q, kind='safety'))
     if kani:
         for h in kani_obl:
             if h['status'] == 'FAILED':
@@ -708,7 +714,7 @@ def _run(pid, P, tier, seed, scratch, t0):
             print('  failing input: %s' % json.dumps(f['witness']))
         print('VIOLATION property=%s replay=%s%s' % (pid, path, tail))
 
-    if inconclusive and not violations:
+    if not violations and [i for i in inconclusive if not i.get('undecided') or (i.get('searched') or 0) < MIN_FALLBACK_REQUESTS]:
         for i in inconclusive[:10]:
             print('INCONCLUSIVE property=%s reason=%s' % (pid, i['message'][:300]))
             if i.get('rendered'):
@@ -721,6 +727,7 @@ def _run(pid, P, tier, seed, scratch, t0):
     for f in rel_fail:
         fail_by.setdefault(f['cfg'], []).append(f)
     discharged_list = []
+    undecided_obl = []
     known_obl = 0
     for o in obligations:
         bad = None
@@ -737,7 +744,22 @@ def _run(pid, P, tier, seed, scratch, t0):
                     bad = f
             elif f['clause'] == o['id']:
                 bad = f
-        if bad is None:
+        und = None
+        for i_ in inconclusive:
+            if not i_.get('undecided'):
+                continue
+            if o['id'].startswith('PURE.'):
+                if i_.get('kind') == 'purity' and i_.get('fn') == o['where']:
+                    und = i_
+            elif o['id'].startswith('SAFETY.'):
+                if i_.get('fn') == o['where'] and (i_.get('kind') in ('safety', 'overflow', 'bounds', 'unreachable', 'termination', 'divzero', 'precondition', 'panic')
+                                                  or (i_.get('kind') == 'undecided' and not i_.get('clause'))):
+                    und = i_
+            elif i_.get('clause') and i_.get('clause') == o['id']:
+                und = i_
+        if bad is None and und is not None:
+            undecided_obl.append((o, und))
+        elif bad is None:
             discharged_list.append(o)
         elif known_match(pid, bad, known, kani):
             known_obl += 1
@@ -757,6 +779,10 @@ def _run(pid, P, tier, seed, scratch, t0):
                                  passed=(o in discharged_list)) for o in obligations if o.get('bounded')],
             undischarged_known_findings=known_obl,
             undischarged_violations=failed_obl,
+            # obligations the verifier could not decide this run (a function fell out of its reach): NOT counted as discharged; each is backed
+            # only by the bounded search named here (inputs of the witness families of its clause, replayed on the real code, none failing)
+            undecided_bounded_only=[dict(obligation=o['id'], configuration=o['cfg'], function=o['where'], reason=u['message'][:300], requests=u.get('searched') or 0)
+                                    for (o, u) in undecided_obl],
             checker_cmd=runs[0]['cmd'] + (' ; and the same with -C debug-assertions=off' if len(runs) > 1 else '') +
             (' ; ' + kani['cmd'] if kani else ''),
             trusted_base=props.TRUSTED_BASE + P.get('trusted', []),
@@ -785,11 +811,17 @@ def _run(pid, P, tier, seed, scratch, t0):
 
     if violations:
         return 1
-    if inconclusive:
+    # what the verifier left undecided because a function fell out of its reach is backed by a bounded search on the real code when the
+    # families of its clause hold enough inputs (labelled bounded, never counted as proved); anything else undecided is exit 2
+    hard = [i for i in inconclusive if not i.get('undecided') or (i.get('searched') or 0) < MIN_FALLBACK_REQUESTS]
+    if hard:
         return 2
     nb = len([o for o in obligations if o.get('bounded')])
-    print('OK property=%s obligations=%d discharged=%d bounded_standins=%d known_findings=%d wall=%.1fs' %
-          (pid, n_obl - known_obl - nb, len([o for o in discharged_list if not o.get('bounded')]), nb, known_obl, wall))
+    for i_ in inconclusive:
+        print('BOUNDED-ONLY property=%s %s — not proved this run; %d inputs of its witness families replayed on the real code, none fails'
+              % (pid, i_['message'][:260], i_.get('searched') or 0))
+    print('OK property=%s obligations=%d discharged=%d undecided_bounded_only=%d bounded_standins=%d known_findings=%d wall=%.1fs' %
+          (pid, n_obl - known_obl - nb, len([o for o in discharged_list if not o.get('bounded')]), len(undecided_obl), nb, known_obl, wall))
     return 0
 
 
